@@ -71,7 +71,7 @@ def wellformed(c):
             QHyp([p, n], Implies(par(c.old, n)[p], Not(up(p, n))), 'acyclic', triggers=[(up, (0, 1))])]
 
 
-@contract(W, 'dawgie/pl/dag.py', 'Construct._ancestry', props=['C09'])
+@contract(W, 'dawgie/pl/dag.py', 'Construct._ancestry', props=['C09', 'C01'])
 class ancestry(ContractBase):
     params = {'self': CONSTRUCT}
     modifies = ['Node.ancestry']
